@@ -127,3 +127,13 @@ Print Assumptions C11_desugar_idempotent.
 Print Assumptions C11_class_struct_any_order.
 Print Assumptions C11_class_equiv_two_instances.
 Print Assumptions C11_static_scope_is_lexical_two_instances.
+
+(* member beats universe: a field named `min` and a method named `len`, used by their bare names inside the class,
+   are desugared to this.min / this.len(..) like any other member (no universe scope exists below the members in
+   the model: a bare name that is neither local nor member is a package-level name) *)
+Example C11_universe_names_example :
+  let min := [109;105;110]%N in let len := [108;101;110]%N in let v := [118]%N in
+  mbody (desugar_method (mkclass [min] [mkmethod len v SNil])
+           (mkmethod len v (SCons (SAssign min (ECall len (EId min))) SNil)))
+  = SCons (SThisAssign min (EThisCall len (EThis min))) SNil.
+Proof. vm_compute. reflexivity. Qed.
